@@ -106,6 +106,21 @@ def observe(ds, probe_keys=(), index_range=None, max_iter=10000):
         for i in rng:
             o = outcome(lambda: ds[i])
             ob['getitem'][i] = (o[0], norm(o[1]) if o[0] == 'v' else o[1])
+    # the same indices as numpy fixed-width scalars (C02: "including numpy integer types")
+    ob['getitem_np'] = {}
+    if ob['indexable'] == ('v', True):
+        import numpy as np
+        import warnings
+        for dt in (np.int8, np.uint8, np.int64):
+            for i in rng:
+                try:
+                    v = dt(i)
+                except OverflowError:
+                    continue
+                with warnings.catch_warnings():
+                    warnings.simplefilter('ignore')
+                    o = outcome(lambda: ds[v])
+                ob['getitem_np'][(dt.__name__, i)] = (o[0], norm(o[1]) if o[0] == 'v' else o[1])
     ob['getkey'] = {}
     for k in list(probe_keys) + ABSENT_KEYS:
         o = outcome(lambda: ds[k])
@@ -200,6 +215,9 @@ def compare(ob, ex, what=None):
     for i, e in ex['getitem'].items():
         if i in ob['getitem']:
             chk('getitem[%d]' % i, ob['getitem'][i], e)
+    for (dt, i), o in ob.get('getitem_np', {}).items():
+        if i in ex['getitem']:
+            chk('getitem[np.%s(%d)]' % (dt, i), o, ex['getitem'][i])
     for k, e in ex['getkey'].items():
         if k in ob['getkey']:
             chk('getkey[%r]' % k, ob['getkey'][k], e)
